@@ -14,8 +14,8 @@ from .edits import Insert, Match
 from .graphtage import BuildOptions, Filetype, KeyValuePairNode, LeafNode, ListNode, MappingNode, StringNode, \
     StringEdit, StringFormatter
 from .printer import Fore, Printer
-from .sequences import SequenceFormatter, SequenceNode
-from .tree import ContainerNode, Edit, GraphtageFormatter, TreeNode
+from .sequences import SequenceEdit, SequenceFormatter, SequenceNode
+from .tree import ContainerNode, Edit, EditedTreeNode, GraphtageFormatter, TreeNode
 
 
 def build_tree(path: str, options: Optional[BuildOptions] = None, *args, **kwargs) -> TreeNode:
@@ -32,6 +32,11 @@ def build_tree(path: str, options: Optional[BuildOptions] = None, *args, **kwarg
             return json.build_tree(singleton, options=options, *args, **kwargs)
 
 
+def _is_unedited_and_empty(node: SequenceNode) -> bool:
+    """Empty sequences have no block-style representation in YAML; they have to be printed as `[]` or `{}`"""
+    return len(node) == 0 and not (isinstance(node, EditedTreeNode) and isinstance(node.edit, SequenceEdit))
+
+
 class YAMLListFormatter(SequenceFormatter):
     is_partial = True
 
@@ -41,9 +46,12 @@ class YAMLListFormatter(SequenceFormatter):
     def print_SequenceNode(self, printer: Printer, node: SequenceNode):
         self.parent.print(printer, node)
 
-    def print_ListNode(self, printer: Printer, *args, **kwargs):
+    def print_ListNode(self, printer: Printer, node: ListNode, *args, **kwargs):
+        if _is_unedited_and_empty(node):
+            printer.write('[]')
+            return
         printer.newline()
-        super().print_SequenceNode(printer, *args, **kwargs)
+        super().print_SequenceNode(printer, node, *args, **kwargs)
 
     def edit_print(self, printer: Printer, edit: Edit):
         printer.indents += 1
@@ -72,7 +80,7 @@ class YAMLKeyValuePairFormatter(GraphtageFormatter):
             self.print(printer, node.key)
         with printer.bright().color(Fore.CYAN):
             printer.write(": ")
-        if isinstance(node.value, MappingNode):
+        if isinstance(node.value, MappingNode) and not _is_unedited_and_empty(node.value):
             printer.newline()
             printer.indents += 1
             self.parent.print(printer, node.value)
@@ -90,11 +98,13 @@ class YAMLDictFormatter(SequenceFormatter):
     def __init__(self):
         super().__init__('', '', '')
 
-    def print_MultiSetNode(self, *args, **kwargs):
-        super().print_SequenceNode(*args, **kwargs)
+    def print_MultiSetNode(self, printer: Printer, node: SequenceNode, *args, **kwargs):
+        if _is_unedited_and_empty(node):
+            printer.write('{}')
+            return
+        super().print_SequenceNode(printer, node, *args, **kwargs)
 
-    def print_MappingNode(self, *args, **kwargs):
-        super().print_SequenceNode(*args, **kwargs)
+    print_MappingNode = print_MultiSetNode
 
     def print_SequenceNode(self, *args, **kwargs):
         self.parent.print(*args, **kwargs)
